@@ -28,9 +28,10 @@ def task_cx(tier, only=None):
                                         env.describe(StrPrinter._Reaction_parts)], replay_note="rendering")
 
 
-def task_species():
-    """finite table: every documented suffix selects its phase index; created species carry the three names of the renderers"""
-    from chempy import Species, Substance
+def species_checks():
+    """finite, concrete table (not solver evidence): phase index selected by every documented suffix (tuple and dict `phases`), the three
+    names carried by created substances, LaTeX escaping of braces, printing of fractional coefficients"""
+    from chempy import Species, Substance, Reaction, Equilibrium
     from chempy.util.parsing import formula_to_latex, formula_to_unicode, formula_to_html
 
     bad = []
@@ -50,7 +51,6 @@ def task_species():
         got = Species.from_formula(f, phases=ph, default_phase_idx=-1).phase_idx
         if got != idx:
             bad.append("%s with phases=%s default -1: phase_idx %s" % (f, ph, got))
-    from chempy import Reaction, Equilibrium
     subs = {k: Substance.from_formula(k) for k in ("H2O2", "O2", "H2O", "SO2", "SO3")}
     r = Reaction({"H2O2": 1}, {"O2": 0.5, "H2O": 1}, checks=())
     e = Equilibrium({"SO2": 1, "O2": 0.5}, {"SO3": 1}, checks=())
@@ -62,13 +62,21 @@ def task_species():
     for f, exp in (("{(H2O)2OH}12", "\\{(H_{2}O)_{2}OH\\}_{12}"), ("Fe{CN}6-3", "Fe\\{CN\\}_{6}^{3-}"), ("{Li@C60}+", "\\{Li@C_{60}\\}^{+}")):
         if formula_to_latex(f) != exp:
             bad.append("latex braces %s -> %s" % (f, formula_to_latex(f)))
+    return bad
+
+
+def task_species():
+    from chempy import Species, Substance
+
+    bad = species_checks()
     res = dict(engine="X", functions=[env.describe(Species.from_formula), env.describe(Substance.from_formula)], obligations=1,
-               discharged=0 if bad else 1, violations=[], twin="n/a", bounds="6 cores x 5 suffixes (finite table, concrete)",
+               discharged=0 if bad else 1, violations=[], twin="n/a", bounds="finite table of concrete formulas (sanity, not solver evidence)",
                sample={"formula": "alpha-FeOOH(s)", "phase_idx": 1})
     if bad:
-        res["violations"].append(dict(key="species:phase_idx", desc="; ".join(bad[:4]), replay_src='''
-from chempy import Species
-bad = [f for f, i in (("H2O(s)", 1), ("H2O(l)", 2), ("H2O(g)", 3), ("H2O(aq)", 0), ("H2O", 0)) if Species.from_formula(f).phase_idx != i]
+        res["violations"].append(dict(key="species:%s" % bad[0].split()[0], desc="; ".join(bad[:4]), replay_src='''
+sys.path.insert(0, "/verif")
+from checks.C13 import species_checks
+bad = species_checks()
 print(bad); sys.exit(1 if bad else 0)
 '''))
     res["status"] = "violation" if bad else "discharged"
